@@ -138,7 +138,7 @@ func c12Apply(w *world, st *c12State, s wlStep) {
 		if !w.cfg.gatedRelist || !w.rootReady || st.pendingRelist != nil {
 			return
 		}
-		req := w.api.awaitList(wedgeBound + wedgeConfirm)
+		req := w.api.awaitListWedge()
 		if req == nil {
 			w.fail("WEDGE: the controller issued no further List call (period %v)", w.cfg.period)
 		}
